@@ -28,7 +28,7 @@ SPEC = {
     "rule": ("base programs from G_isa (no value-dependent sizes) x 8 re-renderings each; literal/expression overlap "
              "programs; non-trivial = base program that assembles with >= 2 instructions and whose renderings were all "
              "compared, or a failing base whose renderings all failed; distinct = distinct base source"),
-    "monitors": ["rendering-equality", "literal-beats-expression"],
+    "monitors": ["rendering-equality", "literal-beats-expression", "glued-rule-token"],
     "min_nontrivial": {"quick": 400, "thorough": 10000},
     "assumptions": ["symbols are case-sensitive, mnemonics and literal operands are not (as documented)"],
 }
@@ -143,6 +143,19 @@ def overlap_program(rng):
     return "\n".join(lines) + "\n", want
 
 
+def glued_program(rng):
+    """A rule spelled as one token (`callq`) must not match the two-token line `call q` that another rule
+    (`call {p}`) matches; the repository's own test tests/rule_simple/err_whitespace.asm states the intent."""
+    mn = rng.choice(["call", "jump", "load", "halt"])
+    suf = rng.choice(["q", "x", "w"])
+    val = rng.randint(0, 200)
+    lines = ["#ruledef", "{", "    %s {p} => 0x01 @ p`8" % mn, "    %s%s => 0xee" % (mn, suf), "}",
+             "%s = %d" % (suf, val), "%s %s" % (mn, suf)]
+    if rng.random() < 0.5:
+        lines[2], lines[3] = lines[3], lines[2]
+    return "\n".join(lines) + "\n", "01%02x" % val
+
+
 KINDS = ["case", "space", "comment", "order", "rename", "all", "all", "all"]
 
 
@@ -152,6 +165,18 @@ def shard(ctx):
     while not ctx.out_of_time():
         rng = ctx.rng(i)
         i += ctx.nshards
+        if rng.random() < 0.02:
+            src, want = glued_program(rng)
+            job = lib.asm_job({"main.asm": src}, want=["msgs"])
+            rec = worker.run(job)
+            ctx.evaluated()
+            ctx.monitor("glued-rule-token")
+            if lib.abnormal(rec):
+                ctx.excluded += 1
+            elif not lib.ok(rec) or rec["out"]["hex"] != want:
+                ctx.violation("token-boundaries", {"kind": "blank-inside-a-rule-token-is-ignored"}, job, {"hex": want},
+                              {"ok": lib.ok(rec), "hex": (rec.get("out") or {}).get("hex")})
+            continue
         if rng.random() < 0.1:
             src, want = overlap_program(rng)
             job = lib.asm_job({"main.asm": src}, want=["msgs"])
